@@ -47,10 +47,31 @@ pub fn source(n: usize) -> Vec<u8> {
         root_kids.push(r(24));
     }
     objects.push(json!({"n": 11, "g": 0, "value": {"d": [["Type", nm("Pages")], ["Kids", root_kids], ["Count", n], ["MediaBox", [10, 20, 310, 420]]]}}));
+    // images (PageOps!SrcDraws): page 1 draws two images that SHARE one soft mask, page 2 one with a mask of its own,
+    // page 4 the first image of page 1 again (one object used from two pages)
+    let image = |n: u64, data: [u8; 4], mask: u64| json!({"n": n, "g": 0, "dict": {"d": [["Type", nm("XObject")], ["Subtype", nm("Image")], ["Width", 2], ["Height", 2],
+        ["ColorSpace", nm("DeviceGray")], ["BitsPerComponent", 8], ["SMask", r(mask)]]}, "data": data.to_vec(), "filter": null});
+    let mask = |n: u64, data: [u8; 4]| json!({"n": n, "g": 0, "dict": {"d": [["Type", nm("XObject")], ["Subtype", nm("Image")], ["Width", 2], ["Height", 2],
+        ["ColorSpace", nm("DeviceGray")], ["BitsPerComponent", 8]]}, "data": data.to_vec(), "filter": null});
+    objects.push(image(41, [10, 20, 30, 40], 43));
+    objects.push(image(42, [50, 60, 70, 80], 43));
+    objects.push(mask(43, [0, 85, 170, 255]));
+    objects.push(image(44, [1, 2, 3, 4], 45));
+    objects.push(mask(45, [9, 8, 7, 6]));
     for i in 1..=n as i64 {
         let parent = if i == 2 || i == 3 { 12 } else { 11 };
+        let xobjects: Vec<Value> = match i {
+            1 => vec![json!(["Im1a", r(41)]), json!(["Im1b", r(42)])],
+            2 => vec![json!(["Im2", r(44)])],
+            4 => vec![json!(["Im4", r(41)])],
+            _ => vec![],
+        };
+        let mut res = vec![json!(["Font", {"d": [[format!("F{i}"), r(5)]]}])];
+        if !xobjects.is_empty() {
+            res.push(json!(["XObject", {"d": xobjects}]));
+        }
         let mut d = vec![json!(["Type", nm("Page")]), json!(["Parent", r(parent)]), json!(["Contents", r(30 + i as u64)]),
-                         json!(["Resources", {"d": [["Font", {"d": [[format!("F{i}"), r(5)]]}]]}])];
+                         json!(["Resources", {"d": res}])];
         if i % 2 == 1 {
             d.push(json!(["MediaBox", src_box(i).to_vec()]));
         }
@@ -61,10 +82,16 @@ pub fn source(n: usize) -> Vec<u8> {
             d.push(json!(["Rotate", src_rot(i)]));
         }
         objects.push(json!({"n": 20 + i, "g": 0, "value": {"d": d}}));
-        let content = format!("q\nBT\n/F{i} 12 Tf\n100 700 Td\n(PAGE {i}) Tj\nET\nQ\n");
+        let draws = match i {
+            1 => "q 20 0 0 20 60 710 cm /Im1a Do Q\nq 20 0 0 20 90 710 cm /Im1b Do Q\n",
+            2 => "q 20 0 0 20 20 30 cm /Im2 Do Q\n",
+            4 => "q 20 0 0 20 20 30 cm /Im4 Do Q\n",
+            _ => "",
+        };
+        let content = format!("q\nBT\n/F{i} 12 Tf\n100 700 Td\n(PAGE {i}) Tj\nET\nQ\n{draws}");
         objects.push(json!({"n": 30 + i, "g": 0, "dict": {"d": []}, "data": content.into_bytes(), "filter": null}));
     }
-    synth::build(&json!({"version": "1.7", "revisions": [{"objects": objects, "free": [], "xref": "table", "xref_n": 40, "trailer": [["Root", r(1)]]}]})).bytes
+    synth::build(&json!({"version": "1.7", "revisions": [{"objects": objects, "free": [], "xref": "table", "xref_n": 50, "trailer": [["Root", r(1)]]}]})).bytes
 }
 
 fn range_of(v: &Value) -> PageRange {
